@@ -757,9 +757,10 @@ func init() {
 			c.PeerGate("C16")
 			c.ShareOwner("C16")
 			c.IdentifierPure("C16")
+			c.ReplyRequestScoped("C16") // the share leaves in a response object no other request can touch before it is sent
 			c.TLSConfig("C19") // "the authenticated name" is the name of a certificate the handshake verified against the configured authority
 		},
-		Explanation: "Each of the five key-generation handlers calls the process service only below [sender id != 0], passing the looked-up id; the lookup yields a non-zero id only as the table key of the peer whose configured name equals the authenticated client name; that name enters the context only in the client-info interceptor, from the first verified peer certificate; nothing else calls the protocol methods; the contribution reply is the share indexed by that id and outgoing shares go to the peer of their own id. See DESIGN.md §5 C16.",
+		Explanation: "Each of the five key-generation handlers calls the process service only below [sender id != 0], passing the looked-up id; the lookup yields a non-zero id only as the table key of the peer whose configured name equals the authenticated client name; that name enters the context only in the client-info interceptor, from the first verified peer certificate; nothing else calls the protocol methods; the contribution reply is the share indexed by that id, carried in a response object allocated by the call, and outgoing shares go to the peer of their own id. See DESIGN.md §5 C16.",
 		Trusted:     append([]string{"crypto/tls: PeerCertificates[0] is the verified leaf when RequireAndVerifyClientCert is set"}, commonTrusted...),
 	})
 }
